@@ -1,19 +1,39 @@
 //! Correspondence harness: runs the real crate (path dependency on /repo) on generated cases and
 //! writes, line-aligned, the cases and what the implementation did.
+//!   verif-harness gen <suite> <quick|thorough> <seed> <outdir>   -> <outdir>/<suite>.cases/.impl
+//!   verif-harness exec <casesfile> <outfile>                     -> re-run given case lines
+mod cases;
 mod obs;
 mod suites;
 mod util;
+use std::io::{BufRead, Write};
 
 fn main() {
     let a: Vec<String> = std::env::args().collect();
-    if a.len() < 5 {
-        eprintln!("usage: verif-harness <suite> <quick|thorough> <seed> <outdir> [extra]");
-        std::process::exit(2);
-    }
     std::panic::set_hook(Box::new(|_| {}));
-    let (suite, tier, seed, dir) = (a[1].as_str(), a[2].as_str(), a[3].parse::<u64>().unwrap(), a[4].as_str());
-    match suite {
-        "C12" => suites::c12::run(tier, seed, dir),
-        _ => { eprintln!("unknown suite {}", suite); std::process::exit(2); }
+    match a.get(1).map(|s| s.as_str()) {
+        Some("gen") if a.len() >= 6 => {
+            let (suite, tier, seed, dir) = (a[2].as_str(), a[3].as_str(), a[4].parse::<u64>().unwrap(), a[5].as_str());
+            let mut out = util::Out::new(dir, suite);
+            let mut emit = |line: String| { let o = cases::exec_case(&line); out.case(&line, o); };
+            match suite {
+                "C12" => suites::c12::gen(tier, seed, &mut emit),
+                _ => { eprintln!("unknown suite {}", suite); std::process::exit(2); }
+            }
+            out.finish();
+        }
+        Some("exec") if a.len() >= 4 => {
+            let f = std::io::BufReader::new(std::fs::File::open(&a[2]).unwrap());
+            let mut o = std::io::BufWriter::new(std::fs::File::create(&a[3]).unwrap());
+            for line in f.lines() {
+                let line = line.unwrap();
+                if line.trim().is_empty() { continue; }
+                match cases::exec_case(&line) {
+                    None => writeln!(o, "PANIC").unwrap(),
+                    Some(v) => writeln!(o, "{}", v.iter().map(|x| x.to_string()).collect::<Vec<_>>().join(" ")).unwrap(),
+                }
+            }
+        }
+        _ => { eprintln!("usage: verif-harness gen <suite> <tier> <seed> <outdir> | exec <cases> <out>"); std::process::exit(2); }
     }
 }
